@@ -533,6 +533,26 @@ def run(ctx):
     check_key_schedule(rep, facts)
     from .common import check_suite_parametric
     check_suite_parametric(rep, facts, 'R02.9', floor=30)
+    # R02.10: "the ephemeral key pair is DeriveKeyPair of the Nsk random bytes": the derivation itself is RFC 9180 §7.1.3 for
+    # every enabled group (labels, candidate loop with counter, bitmask, range check by the validating parser, pk = pk(sk))
+    from . import c03
+    nd = 0
+    for kid, spec in sorted(rfc.KEMS.items()):
+        if spec['feature'] not in feats:
+            continue
+        dhx = None
+        for im in facts.impls_of('dhkex::DhKeyExchange'):
+            if im['self_ty'].startswith(spec['dh_mod'] + '::'):
+                dhx = im['self_ty']
+        if dhx is None:
+            rep.anchor_lost('R02.10', 'DhKeyExchange impl of ' + spec['name'], spec['dh_mod'], 'not found')
+            continue
+        nd += 1
+        if spec['nist']:
+            c03.check_nist_derive(rep, facts, spec, dhx, rule='R02.10')
+        else:
+            c03.check_x25519_derive(rep, facts, dhx, rule='R02.10')
+    rep.floor('R02.10', 'DeriveKeyPair implementations', nd, nk)
     n6 = modes.check_opmode_impls(rep, facts, 'R02.6')
     rep.floor('R02.6', 'OpMode accessor impls', n6, 6)
     # R02.7 ephemeral key
